@@ -1,6 +1,8 @@
 """C14 — concurrent requests are isolated and race-free."""
-import hashlib, os, re, subprocess
+import hashlib, os, re, subprocess, sys
 import runner
+sys.path.insert(0, os.path.join(os.path.dirname(os.path.dirname(os.path.abspath(__file__))), "models"))
+import chttp as _chttp   # compression layer: CHTTP ops as a second correspondence under the pseudo-property C14CH
 
 TIE = "gen:sharedstate + corr:server.Handler"
 TIE_THEOREM = ("Relic.Props.C14.inventory_closed / inventory_live (inventory of shared mutable state re-extracted from server, "
@@ -79,6 +81,8 @@ def generate(ctx):
     else:
         os.remove(ltmp)
     return []  # the generated obligations are theorems of Props/C14*.lean (inventory_closed, inventory_live, transform_goroutines_positional_generated)
+    _chttp.generate(ctx)  # Relic.Generated.CompressHttp (compresshttp_package_state_readonly)
+    return []  # the generated obligations are theorems of Props/C14.lean (inventory_closed, inventory_live)
 
 
 def search_after_broken_obligation(ctx, broken):
@@ -145,7 +149,7 @@ def _race_run(ctx, ops):
 
 def run(ctx):
     mod = __import__("props.c14", fromlist=["x"])
-    cov, findings, known = runner.correspondence("C14", ctx, mod)
+    cov, findings, known = ({}, [], []) if _chttp.replay_only_chttp(ctx) else runner.correspondence("C14", ctx, mod)
     cov["generated"] = _state["gen"]
     cov["generated_obligations"] = ["inventory_closed", "inventory_live"]
     if ctx["tier"] == "thorough" and ctx.get("replay_ops") is None:
@@ -154,7 +158,7 @@ def run(ctx):
         info, f2 = _race_run(ctx, [l for l in g.stdout.split("\n") if l])
         cov["race"] = info
         findings += f2
-    return cov, findings, known
+    return _chttp.second(ctx, "C14", "C14CH", cov, findings, known)
 
 
 def canon_impl(il):
